@@ -83,7 +83,7 @@ Fixpoint gauss_run (pats : list (list bool)) (k : nat) (out : tm) (st : GS) : li
   | [] => []
   | b :: rest =>
     let p := pat_of b in
-    let r := step p k (leaf (IPredG k)) out st in
+    let r := correct_wrapper false (step p k) (leaf (IPredG k)) out st in
     let '(lk, ll) := getlik p k (r_st r) in
     mkObs (r_out r) (leaf IEmpty) (r_log r) (opt_pair lk) ll :: gauss_run rest (S k) (r_out r) (r_st r)
   end.
@@ -119,14 +119,14 @@ Definition s_lm (custom : bool) (k : nat) : likmodel tm tm :=
 
 Section PfRun.
 Variable GS : Type.
-Variable step : pattern -> nat -> tm * tm -> tm * tm -> GS -> result (tm * tm) GS.
+Variable step : list bool -> nat -> tm * tm -> tm * tm -> GS -> result (tm * tm) GS.
 Variable getlik : GS -> bool * tm.
 
 Fixpoint pf_run (pats : list (list bool)) (k : nat) (out : tm * tm) (st : GS) : list obs :=
   match pats with
   | [] => []
   | b :: rest =>
-    let r := step (pat_of b) k (leaf (IPredG k), leaf (IPredS k)) out st in
+    let r := correct_wrapper false (step b k) (leaf (IPredG k), leaf (IPredS k)) out st in
     mkObs (fst (r_out r)) (snd (r_out r)) (r_log r) (getlik (r_st r)) [] :: pf_run rest (S k) (r_out r) (r_st r)
   end.
 End PfRun.
@@ -134,12 +134,18 @@ End PfRun.
 Definition pf_st0 : pf_state tm := mkPfSt false (leaf IEmpty).
 
 Definition run_boot (custom : bool) (pats : list (list bool)) : list obs :=
-  pf_run _ (fun p k => s_boot_step (inject_lik p (s_lm custom k)) (inject p (smm k))) pf_get_lik
+  pf_run _ (fun b k => s_boot_step (inject_lik (pat_of b) (s_lm custom k)) (inject (pat_of b) (smm k))) pf_get_lik
          pats 0 (leaf IOutG, leaf IOutS) pf_st0.
+
+(* GPFCorrection makes its calls in two phases: the wrapped Gaussian correction,
+   then the likelihood.  A 6-bit pattern applies to both; with 12 bits the second
+   six are the pattern seen during the likelihood phase (the same measurement
+   model object may answer differently at the later calls). *)
+Definition pat2_of (bits : list bool) : pattern := fun s => nth (6 + nat_of_site s) bits (pat_of bits s).
 
 Definition run_gpf_with (GS : Type) (gc : pattern -> nat -> tm -> tm -> GS -> result tm GS) (gs0 : GS)
            (custom : bool) (pats : list (list bool)) : list obs :=
-  pf_run _ (fun p k => s_gpf_step GS (gc p k) (inject_lik p (s_lm custom k)) (inject p (smm k)))
+  pf_run _ (fun b k => s_gpf_step GS (gc (pat_of b) k) (inject_lik (pat2_of b) (s_lm custom k)) (inject (pat2_of b) (smm k)))
          (fun st => pf_get_lik (g_pf st)) pats 0 (leaf IOutG, leaf IOutS) (mkGpfSt pf_st0 gs0 (leaf IRng)).
 
 (* inner: 0 = KF, 1 = UKF generic, 2 = UKF additive *)
